@@ -381,12 +381,18 @@ func round(ctx *context, args []Datum) (retNum Datum) {
 
 	num0 := args[0].Number("round()")
 
-	// Trunc() rounds towards zero.
-	var rounded = 0.0
-	if num0 >= 0 {
-		rounded = float64(math.Trunc(0.5 + num0))
-	} else {
-		rounded = -float64(math.Trunc(0.5 - num0))
+	// XPATH 4.4: the closest integer; of two equally close ones the one
+	// closest to positive infinity.  NaN, infinities, zeros and numbers too
+	// large to have a fraction are returned unchanged, and [-0.5, -0) gives
+	// negative zero.
+	var rounded = num0
+	switch {
+	case math.IsNaN(num0) || math.IsInf(num0, 0) || num0 == 0:
+	case math.Abs(num0) >= 1<<52:
+	case num0 < 0 && num0 >= -0.5:
+		rounded = math.Copysign(0, -1)
+	default:
+		rounded = math.Floor(num0 + 0.5)
 	}
 
 	return NewNumDatum(rounded)
